@@ -475,7 +475,7 @@ impl<W: WorldOps> Engine<W> {
                                 used += 1;
                             }
                             None => {
-                                self.viol(Some(wi), &["C04", "C13"], "clone", format!("component token {t} of a live entity was not cloned"));
+                                self.viol(Some(wi), &["C04", "C13", "C02"], "clone", format!("component token {t} of a live entity was not cloned (shallow copy?)"));
                                 return None;
                             }
                         }
